@@ -41,8 +41,37 @@ def optHex : Option Bytes → String
 
 def signerTok? (t : String) : Option AddrTok := if t = "" then some .empty else Script.pAddrTok? t
 
+/-- the stored-owner token of an `ownergate` request: `A<i>` canonical, `U<i>` upper case, `F<i>` foreign prefix / `T<i>`
+wrong checksum / `J` arbitrary word (all three: a non-empty string that does not decode), `-` empty, `none` no registration -/
+def gateOwner? (t : String) : Option (Option AddrTok) :=
+  if t = "none" then some none
+  else if t = "-" then some (some .empty)
+  else if t = "J" then some (some .bad)
+  else match t.toList with
+    | 'A' :: ds => (String.ofList ds).toNat?.map (fun i => some (.ok i false))
+    | 'U' :: ds => (String.ofList ds).toNat?.map (fun i => some (.ok i true))
+    | 'F' :: ds => (String.ofList ds).toNat?.map (fun _ => some .bad)
+    | 'T' :: ds => (String.ofList ds).toNat?.map (fun _ => some .bad)
+    | _ => none
+
+/-- `IsAuthorisedToRecord` on a registry holding (at most) registration 1 with the given stored owner -/
+def ownerGate (k : RegKind) (own : Option AddrTok) (recorder : Addr) : Bool :=
+  let p : RegParams := { denom := "nund", feeReg := 1, feeRec := 1, feeBuy := 1, defLimit := 1, maxLimit := 1 }
+  let s0 : RegState := { kind := k, params := p, nextId := 2 }
+  let s : RegState := match own with
+    | none => s0
+    | some o => { s0 with regs := [(1, RegMeta.mk 1 o "m" "n" "" "" 0 0 0 0)] }
+  match s.ownedBy 1 recorder with
+  | .ok _ => true
+  | .error _ => false
+
 def eval (toks : List String) : String :=
   match toks with
+  | ["ownergate", m, st, rc] =>
+    match (if m = "wrk" then some RegKind.wrk else if m = "bcn" then some RegKind.bcn else none), gateOwner? st,
+          (match rc.toList with | 'A' :: ds => (String.ofList ds).toNat? | _ => none) with
+    | some k, some own, some j => if ownerGate k own j then "1" else "0"
+    | _, _, _ => "bad-request"
   | ["key", "ent.po", n] => optHex (do pure (idKey (← pfx "enterprise" "PurchaseOrderIDKeyPrefix") (← n.toNat?)))
   | ["key", "ent.raised", n] => optHex (do pure (idKey (← pfx "enterprise" "RaisedPoPrefix") (← n.toNat?)))
   | ["key", "ent.accepted", n] => optHex (do pure (idKey (← pfx "enterprise" "AcceptedPoPrefix") (← n.toNat?)))
